@@ -24,7 +24,15 @@ def release_symx():
             _REL.append(os.environ["SYMX_BIN_RELEASE"])
         else:
             b = subprocess.run(["cargo", "build", "--release", "--offline"], cwd=f"{ROOT}/symx", capture_output=True, text=True)
-            _REL.append(f"{ROOT}/symx/target/release/symx" if b.returncode == 0 else None)
+            cand = [f"{ROOT}/symx/target/release/symx"]
+            try:
+                import re as _re
+                m = _re.search(r'target-dir\s*=\s*"([^"]+)"', open(f"{ROOT}/symx/.cargo/config.toml").read())
+                if m:
+                    cand.insert(0, m.group(1) + "/release/symx")
+            except Exception:
+                pass
+            _REL.append(next((c for c in cand if b.returncode == 0 and os.path.exists(c)), None))
     return _REL[0]
 
 
